@@ -83,9 +83,11 @@ def scenarios_for(pid, devs, rng, tier, shapes):
                         ok = False
                     if dev["k"].startswith("rev_other_element"):
                         # needs a second credential in the same registry, with another identifier
-                        rs = [x for x in s["stmts"] if x["k"] == "rev" and x["id"] == tgt]
+                        rs = [x for x in s["stmts"] if x["k"] in ("rev", "mem") and x["id"] == tgt]
                         if not rs:
                             ok = False
+                        elif rs[0]["k"] == "mem":
+                            pass        # another element of the verifier's set: always available
                         else:
                             ci = next(x["cred"] for x in s["stmts"] if x["k"] == "sig" and x["id"] == rs[0]["ref"])
                             others = [c for j, c in enumerate(s["creds"]) if j != ci and c["issuer"] == s["creds"][ci]["issuer"]
